@@ -402,11 +402,13 @@ OobCase(x) ==
 FarBackCases == { <<k, br>> : k \in 0 .. 4, br \in {"beq", "j", "bnez"} }
 FarBackCase(x) ==
   LET k == x[1]
-      br == CASE x[2] = "beq" -> B("beq", "zero", "zero", 16) [] x[2] = "j" -> J(16) [] OTHER -> B("bnez", "t0", "zero", 16)
-      p == <<J(20)>> \o [i \in 1 .. 15 |-> Nop]
-           \o <<Addi("t3", "t3", 100), Addi("t1", "t3", 1), J(22 + k), Nop>>     \* 16 .. 19
-           \o <<Li("t0", 1), br>>                                              \* 20, 21
-           \o [i \in 1 .. k |-> Li("t2", 9)]                                   \* the shadow, then the end of the text
+      \* the target block (24..26) shares no instruction line with the start (0) or with the tail (48..),
+      \* whether lines are aligned to 16 instructions or start at the first missing pc
+      br == CASE x[2] = "beq" -> B("beq", "zero", "zero", 24) [] x[2] = "j" -> J(24) [] OTHER -> B("bnez", "t0", "zero", 24)
+      p == <<J(48)>> \o [i \in 1 .. 23 |-> Nop]
+           \o <<Addi("t3", "t3", 100), Addi("t1", "t3", 1), J(50 + k)>> \o [i \in 1 .. 21 |-> Nop]   \* 24 .. 26, padding
+           \o <<Li("t0", 1), br>>                                                                    \* 48, 49
+           \o [i \in 1 .. k |-> Li("t2", 9)]                                                         \* the shadow, then the end of the text
       r0 == Regs0(64, 128, 77, 5, 6, 0)
       fin == Final(p, r0, "ramp", 256, 64)
   IN CaseRec("FarBack", p, r0, "ramp", 256, fin, {"t1", "t2", "t3"}, {}, Tags(p, fin), [k |-> k, br |-> x[2]])
